@@ -239,16 +239,16 @@ Proof.
     match goal with |- context [let '(b, acc') := ?t in _] => destruct t as [b acc'] eqn:Et end.
     cbn [snd] in Ha.
     assert (Hbase : eerase (EAccess v acc' k) = eerase (EAccess v acc k)) by (apply eerase_access_eq; [exact Ha|reflexivity]).
-    destruct (denv_degree env v); [rewrite eerase_sc_set_deg|]; exact Hbase.
+    destruct (denv_degree env v); [|exact Hbase].
+    destruct (index_adjust acc' d); [rewrite eerase_sc_set_deg|]; exact Hbase.
   - destruct (pd_expr env rhe) as [b1 rhe'] eqn:Er. cbn [snd] in IHrhe.
     pose proof (pd_acc_pres env acc IHacc b1) as Ha.
     match goal with |- context [let '(b, acc') := ?t in _] => destruct t as [b acc'] eqn:Et end.
     cbn [snd] in Ha.
     assert (Hbase : eerase (EUpdate v acc' rhe' k) = eerase (EUpdate v acc rhe k))
       by (apply eerase_update_eq; [exact Ha|exact IHrhe|reflexivity]).
-    destruct (denv_degree env v).
-    + destruct (iter_opt [Some d; expr_deg rhe']); [rewrite eerase_sc_set_deg|]; exact Hbase.
-    + destruct (expr_deg rhe'); [rewrite eerase_sc_set_deg|]; exact Hbase.
+    match goal with |- context [match ?t with Some _ => _ | None => _ end] => destruct t as [rg|]; [|exact Hbase] end.
+    destruct (index_adjust acc' rg); [rewrite eerase_sc_set_deg|]; exact Hbase.
   - destruct (iter_opt (map (denv_degree env) args)); [rewrite eerase_sc_set_deg|]; reflexivity.
 Qed.
 
@@ -281,7 +281,7 @@ Proof.
     destruct (denv_is_local env v).
     + destruct (expr_deg rhe').
       * destruct b; [cbn [snd fst serase]; rewrite H; reflexivity|].
-        destruct (denv_set_degree env v d). cbn [snd fst serase]. rewrite H. reflexivity.
+        destruct (denv_set_degree (denv_set_assigned env v) v d). cbn [snd fst serase]. rewrite H. reflexivity.
       * cbn [snd fst serase]. rewrite H. reflexivity.
     + cbn [snd fst serase]. rewrite H. reflexivity.
   - pose proof (pd_expr_pres env l) as Hl. unfold pres in Hl. destruct (pd_expr env l) as [b1 l']. cbn [snd] in Hl.
